@@ -32,8 +32,9 @@ def run(ck, w):
     else:
         a = flow.origins_x(lib, vd, m[0].args[1])
         r = flow.origins_x(lib, vd, m[0].args[0])
-        app = [e for e in vd.events if e.bb in vd.live and e.name == "apath::Apath::append"]
-        okk = "apath::Apath::append" in flow.origin_calls(a) and any(x[0] == "param" and "exclude" in x[2] for x in r)
+        app_bbs = {x[2] for x in a if x[0] == "call" and x[1] == "apath::Apath::append"}
+        app = [e for e in vd.events if e.bb in vd.live and e.name == "apath::Apath::append" and e.bb in app_bbs]
+        okk = flow.origin_calls(a) == {"apath::Apath::append"} and len(app) == 1 and any(x[0] == "param" and "exclude" in x[2] for x in r)
         if okk and app:
             ar = flow.origins_x(lib, vd, app[0].args[0])
             an = flow.origins_x(lib, vd, app[0].args[1], through_calls=[r"^std::ffi::OsStr::to_str$", r"OsString.*deref$", r"Deref>::deref$"])
